@@ -107,6 +107,18 @@ func Weaken(r *rng.R, v cty.Value, pct int, allowTop bool) cty.Value {
 		if len(p) == 0 && r.Chance(15) {
 			return cty.DynamicVal.WithMarks(ms), nil
 		}
+		free := len(p) == 0
+		if !free {
+			_, free = p[len(p)-1].(cty.GetAttrStep) // members of collections must keep their exact type
+		}
+		if ty := u.Type(); free && !ty.IsPrimitiveType() && !ty.IsCapsuleType() && ty != cty.DynamicPseudoType && r.Chance(25) {
+			// an unknown whose type constraint is itself only partly known: placeholders inside the type
+			g := GeneraliseType(r, ty, 45)
+			if u.IsKnown() && !u.IsNull() && r.Bool() {
+				return cty.UnknownVal(g).RefineNotNull().WithMarks(ms), nil
+			}
+			return cty.UnknownVal(g).WithMarks(ms), nil
+		}
 		return UnknownFor(r, u).WithMarks(ms), nil
 	})
 	if err != nil {
@@ -245,4 +257,38 @@ func Admits(a, c cty.Value) string {
 		}
 	}
 	return ""
+}
+
+// GeneraliseType replaces components below the top of ty (each with probability pct percent) by the
+// dynamic placeholder; every value of type ty conforms to the result.
+func GeneraliseType(r *rng.R, ty cty.Type, pct int) cty.Type {
+	var rec func(t cty.Type, top bool) cty.Type
+	rec = func(t cty.Type, top bool) cty.Type {
+		if !top && r.Chance(pct) {
+			return cty.DynamicPseudoType
+		}
+		switch {
+		case t.IsListType():
+			return cty.List(rec(t.ElementType(), false))
+		case t.IsSetType():
+			return cty.Set(rec(t.ElementType(), false))
+		case t.IsMapType():
+			return cty.Map(rec(t.ElementType(), false))
+		case t.IsTupleType():
+			ets := t.TupleElementTypes()
+			out := make([]cty.Type, len(ets))
+			for i, e := range ets {
+				out[i] = rec(e, false)
+			}
+			return cty.Tuple(out)
+		case t.IsObjectType():
+			out := map[string]cty.Type{}
+			for k, a := range t.AttributeTypes() {
+				out[k] = rec(a, false)
+			}
+			return cty.Object(out)
+		}
+		return t
+	}
+	return rec(ty, true)
 }
